@@ -35,6 +35,30 @@ func fill(seed uint64, round int, n int) []uint64 {
 	return out
 }
 
+// The tables and destinations sit in the middle of large padded blocks so that
+// the tracer can attribute every effective address unambiguously (table,
+// destination or stack) and an access beyond either end is visibly "outside".
+type paddedP struct {
+	pre  [8192]byte
+	tbl  [15]secp256k1.Point
+	post [8192]byte
+}
+type paddedA struct {
+	pre  [8192]byte
+	tbl  [15]secp256k1.VerifAffineEntry
+	post [8192]byte
+}
+type paddedOutP struct {
+	pre  [8192]byte
+	out  secp256k1.Point
+	post [8192]byte
+}
+type paddedOutA struct {
+	pre  [8192]byte
+	out  secp256k1.VerifAffineEntry
+	post [8192]byte
+}
+
 func main() {
 	seed, rounds := uint64(1), 1
 	if len(os.Args) > 1 {
@@ -47,7 +71,8 @@ func main() {
 	var acc uint64
 	for round := 0; round < rounds; round++ {
 		// projective: 15 entries x 12 limbs, raw limbs (the lookup is a pure masked copy)
-		ptbl := new([15]secp256k1.Point)
+		pp := new(paddedP)
+		ptbl := &pp.tbl
 		w := fill(seed, 2*round, 15*12)
 		for i := range ptbl {
 			var x, y, z [4]uint64
@@ -56,18 +81,21 @@ func main() {
 			copy(z[:], w[12*i+8:])
 			ptbl[i].VerifSetRaw(x, y, z, true)
 		}
-		atbl := new([15]secp256k1.VerifAffineEntry)
+		pa := new(paddedA)
+		atbl := &pa.tbl
 		w = fill(seed, 2*round+1, 15*8)
 		for i := range atbl {
 			copy(atbl[i][0][:], w[8*i:])
 			copy(atbl[i][1][:], w[8*i+4:])
 		}
 		for idx := uint64(0); idx <= 15; idx++ {
-			out := new(secp256k1.Point)
+			po := new(paddedOutP)
+			out := &po.out
 			secp256k1.VerifLookupProjective(ptbl, out, idx)
 			x, y, z, _ := out.VerifRaw()
 			acc ^= x[0] ^ y[1] ^ z[2]
-			aout := new(secp256k1.VerifAffineEntry)
+			pao := new(paddedOutA)
+			aout := &pao.out
 			secp256k1.VerifLookupAffine(atbl, aout, idx)
 			acc ^= aout[0][0] ^ aout[1][3]
 		}
